@@ -85,6 +85,11 @@ for the on-chain contents -/
 theorem fresh_inv (p : Option Int) : Inv lt (⟨[], [], p⟩ : BM K V) :=
   ⟨List.Pairwise.nil, by simp, by simp, List.nodup_nil⟩
 
+/-- a literal `{ Elt k v ; … }` accepted by `check_constraints` (no duplicate keys, keys equal to their sorted copy)
+satisfies the invariant: the history theorems apply to fresh maps with initial elements -/
+theorem literal_inv (hs : StrictTotal lt) (items : List (K × V)) (b : BM K V) (h : fromLiteral lt items = some b) :
+    Inv lt b := fromLiteral_inv hs items b h
+
 theorem fresh_dict (chain : K → Option V) (p : Option Int) : layered (overlay (⟨[], [], p⟩ : BM K V)) chain = chain := by
   funext k
   simp [layered, overlay]
